@@ -823,7 +823,7 @@ def plan_c15(prop, tier, seed, t0):
     # members of the wake-up families of C06 (the W9 big-backlog ones are in `extra` already)
     def waiting(quick, sd):
         return [s for s in c06_scenarios(6 if quick else 60, sd)
-                if any(w in s["id"] for w in ("-W1-", "-W2-", "-W3-", "-W4-", "-W5-", "-W10-", "-W11-", "-W12-"))]
+                if any(w in s["id"] for w in ("-W1-", "-W2-", "-W3-", "-W4-", "-W5-", "-W10-", "-W11-", "-W12-", "-W14-"))]
     return core_check(prop, tier, seed, t0, over, extra_scenarios=lambda quick, sd: extra(quick, sd) + waiting(quick, sd)
                       + inflight_delete_scenarios(sd, quick),
                       explore=[("data", 32, 1000), ("consumers", 16, 1000)],
@@ -1127,7 +1127,7 @@ def cancel_scenarios(seed, kinds=None, quick=True):
                                   call(4, op="GetSub", name=S1), call(4, op="GetSub", name=S2),
                                   call(4, op="Publish", topic=T1, msgs=[{"p": "probe"}]),
                                   call(4, op="Pull", sub=S1, max=10, ri=True),
-                                  call(4, op="Pull", sub=S2, max=10, ri=True),
+                                  call(4, op="Pull", sub=S2, max=10, ri=True), {"do": "quiet"},
                                   # ... and everything can still be deleted and created again
                                   call(4, op="DeleteSub", name=S1), call(4, op="DeleteSub", name=S2),
                                   call(4, op="GetSub", name=S1), call(4, op="DeleteTopic", name=T1),
@@ -1399,6 +1399,14 @@ def c06_scenarios(n_seeds, seed):
             {"do": "advance", "ms": 50}, Q,
             {"do": "abort", "h": "p1"}] + ([{"do": "abort", "h": "p2"}] if k % 2 == 0 else [{"do": "sabandon", "h": "s"}])
             + [{"do": "drain", "c": 9}], seed=sd, cap=cap))
+        # W14: consumers waiting on a subscription that also has a push configuration
+        if k < 6:
+            prepush = [call(1, op="CreateTopic", name=T1), call(1, op="CreateSub", name=S1, topic=T1, ack=10, push="http://127.0.0.1:9/w14")]
+            cons = (start("p", 3, op="Pull", sub=S1, max=1, ri=False) if k % 2 == 0 else {"do": "sopen", "h": "s", "c": 3, "sub": S1, "max": 1})
+            out.append(scn("c06-W14-%d" % k, prepush + [cons, {"do": "settle"},
+                call(2, op="Publish", topic=T1, msgs=[{"p": "w14-%d" % k}]), {"do": "settle"}, Q, {"do": "advance", "ms": 50}, Q]
+                + ([{"do": "wait", "h": "p"}] if k % 2 == 0 else [{"do": "sabandon", "h": "s"}]) + [Q, {"do": "drain", "c": 9}],
+                seed=sd, cap=cap))
         # W9: a backlog beyond 65535 messages (16-bit arithmetic in the pull path): several waiting
         # consumers, one huge publish; light recording, judged on the reported backlog sizes
         if k < 3:
